@@ -13,6 +13,18 @@ CLAIMED = {
     "C08": ("4 C08", "bounded exhaustive enumeration of lexeme sequences + property-based testing (rapid) of prefixes/mutations of generated valid templates and lexeme soups, with an out-of-band watchdog for non-termination",
             "Exploration: every sequence of up to 3 (quick) / 4 (thorough) lexemes from the full lexeme alphabet; every prefix that ends inside a construct, illegal characters inside code and lexeme mutations of generated valid templates; random soups; the same as files of a template directory. Oracle: returns (watchdog: CPU-time based, confirmed and minimised out of process), no panic, program xor errors with line >= 1, must-reject classes rejected.",
             "Trusted: the watchdog thresholds (10 s wall and 5 s CPU on one input of < 1 KB), the span bookkeeping of the printer that decides which prefixes must be rejected. Inputs containing NUL are lexed up to the NUL (lexer's end marker) and only need to terminate.", "exploration"),
+    "C02": ("4 C02", "bounded exhaustive enumeration of branch shapes and truthiness vectors + property-based testing (rapid) of random programs against an independent reference interpreter",
+            "Exploration: all @if chains with 0..3 @elseif x {false,true,failing}^n x else/no else in 4 contexts; the truthiness table for every value type (literal and data-supplied) through @if, @elseif, ternary, @breakIf, @continueIf and the @for condition; random nested programs. Expected output from the reference interpreter (first truthy branch, later conditions unevaluated).",
+            "Trusted: lib/refint truthiness table and branch semantics (from the statement), lib/spec data construction. Bodies are unique markers so the output identifies the branch.", "exploration"),
+    "C03": ("4 C03", "bounded exhaustive enumeration of loop shapes (array lengths, control-directive kinds and positions, for-loop bounds, nest shapes) + property-based testing (rapid) against the reference interpreter",
+            "Exploration: @each over lengths 0..4 x every control directive at every body position (bare and under @if/@elseif/nested @if/@else); every @for with bounds in -3..3; two- and three-level nests reading loop.* at each level; random nested programs. Expected output from reference loop semantics.",
+            "Trusted: lib/refint loop semantics. loop.* inside a @for body, reads of names bound in an earlier pass and arrays with mixed element types are unspecified and not asserted.", "exploration"),
+    "C04": ("4 C04", "bounded exhaustive enumeration of small programs over assign/read/nesting forms + property-based testing (rapid) against a reference scope chain",
+            "Exploration: every program of <= 3 (quick) / 4 (thorough) statements over assignments of three types to two names, reads, and five nesting forms, under three data maps; the reserved name loop in every position; random programs with shadowing loop variables and type collisions.",
+            "Trusted: lib/refint scope chain (one scope per @if construct and per loop execution). Reads/re-bindings across loop passes are unspecified.", "exploration"),
+    "C09": ("4 C09", "bounded exhaustive tables (built-ins x receivers x argument tuples; operators x operand kinds; @for clause subsets) + property-based testing (rapid) with an untyped program generator; oracle: no panic, returns, error line in range",
+            "Exploration: every built-in name on receivers of every type with all argument tuples of length 0/1 and pairs over 19 boundary values; every operator on every ordered pair of operand kinds; @for with every subset of clauses absent; random untyped programs over data of every kind (nil pointers, nested unsupported values, invalid UTF-8).",
+            "Trusted: recover()-based panic detection and the watchdog. Counts between 10^6 and 2^62 are not generated (memory exhaustion is not a decidable panic); MinInt64/MaxInt64 are.", "exploration"),
     "C05": ("4 C05", "property-based testing (rapid) + bounded exhaustive enumeration against an independent reference scanner",
             "Exploration: every concatenation of up to k pieces of an adversarial alphabet (exhaustive) plus random longer texts, comment bodies and text runs spliced around blocks, each compared with an independent text-level reference (escape removal, comment elision, passthrough). Shows absence of violations only inside the enumerated bounds; beyond them it is sampling.",
             "Trusted: lib/reftext (scanner written from the statement), Go toolchain, rapid. Cases where the statement is silent (overlapping escapes, terminator overlapping the comment opener) are skipped and counted.", "exploration"),
